@@ -377,6 +377,38 @@ def gen_grading(rng, K, n):
     return cases
 
 
+def ulp_neighbour_cases(rng, K, n):
+    """end points that almost coincide: the bandpass's non-zero range sticks out of the source range by 1..4 float steps
+    (or stays inside by as much) at one end"""
+    import numpy as np
+    out = []
+    for _ in range(n):
+        b1, b2 = sorted(rng.sample(LATT, 2))
+        a1, a2 = b1, b2
+        steps = rng.randint(1, 4) * rng.choice([1, -1])
+        which = rng.choice(['lo', 'hi'])
+
+        def step(x, k):
+            v = float(x)
+            for _ in range(abs(k)):
+                v = float(np.nextafter(v, np.inf if k > 0 else -np.inf))
+            return F(v)
+        if which == 'hi':
+            a2 = step(b2, steps)
+        else:
+            a1 = step(b1, -steps)
+        mid = (b1 + b2) / 2
+        band = {'prim': 'bandpass', 'leaf': table_on([a1, mid, a2], False, rng)}
+        src = {'prim': 'source', 'leaf': table_on([b1, mid + 1, b2], False, rng)}
+        out.append({'op': 'check_overlap', 'const': K, 'band': band, 'other': O.fill_ss(src)})
+        out.append({'op': 'overlap_status', 'a': qs([a1, a2]), 'b': qs([b1, b2])})
+        force = rng.choice(FORCES)
+        out.append({'op': 'obs', 'const': K, 'src': O.fill_ss(dict(src)), 'band': band, 'binset': None, 'force': force,
+                    'force_given': force is not None, 'queries': [{'q': 'sample', 'xs': probe_points(rng)},
+                                                                  {'q': 'src_sample', 'xs': probe_points(rng)}]})
+    return out
+
+
 def gen_status(rng, n):
     out = []
     for _ in range(n):
@@ -420,6 +452,7 @@ def run(rep):
     cases += gen_status(rng, 200)
     cases += gen_exhaustive(rng, K, thorough)
     cases += gen_grading(rng, K, 6000 if thorough else 600)
+    cases += ulp_neighbour_cases(rng, K, 1000 if thorough else 100)
     cases += gen_random(rng, K, 40000 if thorough else 1500)
     from . import c10
     placed = []
@@ -432,7 +465,7 @@ def run(rep):
                 '{untapered, tapered} bandpass x {table, faint table (values 2^-28 .. 2^-90), tapered table, tables zero at one end only, box with waveset, unbounded constant, redshifted table} source: '
                 'check_overlap verdicts (some with other thresholds) and Observation construction with force in '
                 '{None, none, taper, extrap, extrapolate, TAPER, Extrap, bogus}, sampled inside, outside and far outside both ranges; '
-                'normalize() on graded and disjoint placements x force (the same verdict must raise DisjointError / PartialOverlap or proceed); plus graded placements (bandpass sticking out of an untapered source range by a sliver or a large part, on either or both sides, x 6 thresholds), random source/bandpass pairs off the lattice and overlap_status on arrays. Non-trivial: a verdict or an admission decision was produced.')
+                'end points 1-4 float steps apart; normalize() on graded and disjoint placements x force (the same verdict must raise DisjointError / PartialOverlap or proceed); plus graded placements (bandpass sticking out of an untapered source range by a sliver or a large part, on either or both sides, x 6 thresholds), random source/bandpass pairs off the lattice and overlap_status on arrays. Non-trivial: a verdict or an admission decision was produced.')
 
     def tags(c, o):
         t = [c['op'], 'outcome:' + (o.get('err') or (o['ok'] if isinstance(o.get('ok'), str) else 'ok'))]
